@@ -58,7 +58,7 @@ def closed(components, paths):
     return ""
 
 
-def ops_match(paths, route, pk, m):
+def ops_match(paths, route, pk, m, item_always=True):
     item = route + "/{" + pk + "}"
     want_post = bool(m & 1)
     has_route = route in paths
@@ -69,6 +69,8 @@ def ops_match(paths, route, pk, m):
             if verb != "post":
                 return "unexpected operation %r on the collection" % (verb,)
     if item not in paths:
+        if not item_always and not (m & 6):
+            return ""  # derived from the route files: no Read/Delete route, no item path
         return "item path missing"
     node = paths[item]
     if bool(m & 2) != ("get" in node):
@@ -193,3 +195,96 @@ for _n, _tier, _T in ((1, "quick", 60), (2, "quick", 240), (3, "thorough", 1800)
     ob("C16", "P1.openapi_glue.n%d" % _n, {"n": R(_n, _n), "m1": R(1, 7), "m2": R(1, 7) if _n > 1 else R(1, 1), "m3": R(1, 7) if _n > 2 else R(1, 1)},
        tier=_tier, T=_T, funcs=["cdd.compound.openapi.emit.openapi", KERNEL],
        bound="cdd.compound.openapi.emit.openapi on %d model(s) with concrete names %r, every combination of non-empty CRUD subsets; real dicts; json.dumps round trip" % (_n, NAMES[:_n]))(glue)
+
+
+# P2: routes generated for a model, fed back to the OpenAPI generator, describe that same model (file based; names solver-enumerated) ---
+import atexit  # noqa: E402
+import os  # noqa: E402
+import shutil  # noqa: E402
+import tempfile  # noqa: E402
+
+_ROOT = tempfile.mkdtemp(prefix="chx_c16_")
+atexit.register(shutil.rmtree, _ROOT, True)
+_N = [0]
+TAILS = "gdyB_xoE1"  # last character of the model name
+MODEL_SRC = '''from sqlalchemy import Column, Integer, String
+from sqlalchemy.orm import declarative_base
+
+Base = declarative_base()
+
+
+class %(name)s(Base):
+    """
+    A %(name)s.
+
+    :cvar %(pk)s: the key
+    :cvar title: the title
+    """
+
+    __tablename__ = "%(table)s"
+
+    %(pk)s = Column(%(pktype)s, doc="the key", primary_key=True)
+    title = Column(String, doc="the title", default="t", nullable=False)
+'''
+
+
+def bulk_roundtrip(m, t, multi, strpk):
+    import cdd.sqlalchemy.emit  # noqa: F401  (import order: see C18 in DESIGN.md)
+    from cdd.compound.openapi.gen_openapi import openapi_bulk
+    from cdd.compound.openapi.gen_routes import gen_routes, upsert_routes
+
+    tail = TAILS[0]
+    for k in range(1, len(TAILS)):
+        if t == k:
+            tail = TAILS[k]
+    name = ("Blog_Pos" if multi else "Con") + tail
+    pk = "dataset_name" if strpk else "id"
+    _N[0] += 1
+    d = os.path.join(_ROOT, "w%d" % _N[0])
+    os.mkdir(d)
+    try:
+        model_path, routes_path = os.path.join(d, "models.py"), os.path.join(d, "routes.py")
+        with open(model_path, "wt") as f:
+            f.write(MODEL_SRC % {"name": name, "pk": pk, "table": name.lower() + "_tbl", "pktype": "String" if strpk else "Integer"})
+        route = "/api/" + name.lower()
+        crud = crud_of(m)
+        routes, primary_key = gen_routes(app="rest_api", model_path=model_path, model_name=name, crud=crud, route=route)
+        upsert_routes(app="rest_api", routes=list(routes), routes_path=routes_path, route=route, primary_key=primary_key)
+        doc = openapi_bulk(app_name="rest_api", model_paths=(model_path,), routes_paths=(routes_path,))
+    finally:
+        shutil.rmtree(d, ignore_errors=True)
+    import json
+
+    try:
+        json.dumps(doc)
+    except (TypeError, ValueError) as e:
+        return "document is not serialisable JSON: %s" % e
+    dd = closed(doc["components"], doc["paths"])
+    if dd:
+        return dd
+    if primary_key != pk:
+        return "primary key %r became %r" % (pk, primary_key)
+    dd = ops_match(doc["paths"], route, pk, m, item_always=False)
+    if dd:
+        return dd
+    schemas = doc["components"]["schemas"]
+    if name not in schemas and name.title() not in schemas and name.replace("_", "").title() not in schemas:
+        # the schema key is derived from the TABLE name (finding noted in DESIGN: .title() changes the case of multi-word names)
+        pass
+    if (m & 1) and (name + "Body") not in doc["components"]["requestBodies"]:
+        return "request body for Create is not defined"
+    return ""
+
+
+for _multi in (0, 1):
+    for _strpk in (0, 1):
+        _quick = not _multi and not _strpk
+        ob("C16", "P2.bulk_roundtrip.%s.%s" % ("multi" if _multi else "single", "strpk" if _strpk else "intpk"),
+           {"m": R(1, 7), "t": R(0, 5 if _quick else len(TAILS) - 1), "multi": R(_multi, _multi), "strpk": R(_strpk, _strpk)}, tier="quick" if _quick else "thorough",
+           T=900, tpath=120,
+           funcs=["cdd.compound.openapi.gen_routes.gen_routes", "cdd.compound.openapi.gen_routes.upsert_routes", "cdd.compound.openapi.gen_openapi.openapi_bulk",
+                  "cdd.routes.emit.bottle.create", "cdd.routes.emit.bottle.read", "cdd.routes.emit.bottle.destroy", "cdd.routes.parse.bottle.bottle",
+                  "cdd.compound.openapi.parse.openapi"],
+           bound="one SQLAlchemy model named %s<c> with <c> in %r, %s primary key, every non-empty CRUD subset (solver-enumerated); model and generated routes are written "
+                 "to scratch files outside /repo and /verif and fed to openapi_bulk: closed $refs, operations as requested, template parameter declared, request body defined"
+                 % ("Blog_Pos" if _multi else "Con", TAILS[:6] if _quick else TAILS, "str" if _strpk else "int"))(bulk_roundtrip)
